@@ -24,14 +24,18 @@ def check(ctx, f, tr, ts, por=True):
     n_r, n_s = math.ceil(tr * f - 1e-9), math.ceil(ts * f - 1e-9)
     pr = ir.drivers('self.phy_reset', exact=True)
     ps = ir.drivers('self.phy_stop', exact=True)
-    # phy_reset is raised in exactly one state: written inside the state or as `fsm.ongoing(state)` outside (one IR form)
-    ctx.need(len(pr) == 1 and len(ps) == 1 and pr[0].state is not None and q.is_one(pr[0].rhs) and not pr[0].guard,
-             'phy_reset / phy_stop drivers')
-    rst = q.state_of(pr[0])
-    ok = ps[0].rhs.op == '~' and ps[0].rhs.args[0].op == 'ongoing'
-    idle = ps[0].rhs.args[0].args[1] if ok else None
-    ctx.ob('C54.outputs', 'PHYResetController.phy_stop[%s]' % tag, ok and idle in fsm.states and rst in fsm.states and idle != rst
-           and not pr[0].guard and not ps[0].guard, ps[0].loc, 'phy_reset = in reset state, phy_stop = not idle')
+    # phy_reset is raised in exactly one state, phy_stop in every state but one -- written inside the states or as a
+    # function of `fsm.ongoing(...)` outside (q.flag_states gives one answer for both)
+    ctx.need(pr and ps, 'phy_reset / phy_stop drivers')
+    fr, fs_ = q.flag_states(ir, fsm, 'self.phy_reset'), q.flag_states(ir, fsm, 'self.phy_stop')
+    r_on = [s for s in fsm.states if fr[s] is True]
+    s_off = [s for s in fsm.states if fs_[s] is False]
+    ok = len(r_on) == 1 and len(s_off) == 1 and all(v is False for s, v in fr.items() if s not in r_on) and \
+        all(v is True for s, v in fs_.items() if s not in s_off)
+    rst = r_on[0] if r_on else None
+    idle = s_off[0] if s_off else None
+    ctx.ob('C54.outputs', 'PHYResetController.phy_stop[%s]' % tag, ok and idle != rst, ps[0].loc,
+           'phy_reset = in reset state, phy_stop = not idle: phy_reset %s, phy_stop %s' % (fr, fs_))
     ctx.need(ok, 'idle state')
     others = [s for s in fsm.states if s not in (idle, rst)]
     ctx.need(len(others) == 1, 'exactly one stop-deferral state')
